@@ -254,6 +254,21 @@ theorem fall_table_exact (labels : List String) (statsList : List (Stats V))
     simp only [List.headD_eq_head?_getD] at hf
     simp [fallBlock, List.getElem?_zipWith, hf, hm]
 
+/-! ### the cached table -/
+
+/-- whatever table was cached before (any history of runs and exports), after
+`run()` the table is the one of the stats of THAT run … -/
+theorem table_after_run (labels : List String) (f : Fall V) (newStats : List (Stats V)) :
+    (Fall.toFrame labels (f.run newStats)).1 = fallTable labels newStats := by
+  unfold Fall.toFrame Fall.run
+  cases h : fallTable labels newStats <;> simp
+
+/-- … and asking again returns the same table (from the cache) -/
+theorem table_cached (labels : List String) (f : Fall V) (newStats : List (Stats V)) :
+    (Fall.toFrame labels (Fall.toFrame labels (f.run newStats)).2).1 = fallTable labels newStats := by
+  unfold Fall.toFrame Fall.run
+  cases h : fallTable labels newStats <;> simp [h]
+
 /-! ### accessors -/
 
 /-- the rows of repetition `si.2`, written from the source data -/
